@@ -40,6 +40,9 @@ type workload struct {
 	Tasks []wTask           `json:"tasks"`
 	Pre   []vkit.SnapEntry  `json:"pre"`    // file content before the run (in order)
 	Seed  map[string]string `json:"seeded"` // slot id -> stored text before the run
+	// Link: tasks with an odd index reach the same directory through a symbolic link
+	// (another spelling of the same file: state keyed by the path string would split)
+	Link bool `json:"link,omitempty"`
 }
 
 func valFor(api, tag string) (input, stored string) {
@@ -100,6 +103,7 @@ func genWorkload(r *rand.Rand, ntasks int) *workload {
 	w.Pre = append(w.Pre, vkit.SnapEntry{ID: "TestPre - 2", Body: "untouched last"})
 	w.Seed["TestPre - 2"] = "untouched last"
 	r.Shuffle(len(w.Pre), func(i, j int) { w.Pre[i], w.Pre[j] = w.Pre[j], w.Pre[i] })
+	w.Link = r.IntN(2) == 0
 	return w
 }
 
@@ -207,11 +211,14 @@ func runTask(root string, cfg *snaps.Config, t wTask, client int, h *recorder, o
 			}
 			call := h.tick()
 			var use *snaps.Config
+			dir, sharedLink := dirFor(root, client)
 			if c.Kind == "update" {
-				use = snaps.WithConfig(snaps.Dir(root), snaps.Filename("shared"), snaps.Update(true))
+				use = snaps.WithConfig(snaps.Dir(dir), snaps.Filename("shared"), snaps.Update(true))
 			} else if c.Kind == "mismatch" {
-				use = snaps.WithConfig(snaps.Dir(root), snaps.Filename("shared"), snaps.Update(false))
+				use = snaps.WithConfig(snaps.Dir(dir), snaps.Filename("shared"), snaps.Update(false))
 				in.MayCreate = false
+			} else if sharedLink != nil {
+				use = sharedLink
 			} else {
 				use = cfg // the shared Config
 			}
@@ -314,7 +321,7 @@ func judge(c *vkit.Ctx, w *workload, h *recorder, path string, in map[string]any
 }
 
 func checkC06(c *vkit.Ctx) {
-	c.P.Rule = "case = (workload, schedule): 2-5 task goroutines, each one test execution (some re-executed) with 1-3 Match* calls of kind create/match/mismatch/update (MatchSnapshot/JSON/YAML) on one shared pre-populated file (half of the JSON documents handed over as Go values, values of a slot mostly of equal length so that rewrites keep the file size), some with snaps.Skip and standalone calls, one Config shared by all tasks; token mode: the real code built from an AST-instrumented overlay of the current sources yields at every file-system/lock operation and a controller grants one task at a time under a seeded strategy (PCT-style priorities with <=3 change points, uniform random, the two-cut family Y^j X^k Y* X* over task pairs, and site-cuts `Y until parked at its n-th <operation>, X until parked at its m-th <operation>, Y*, X*` over 13 operation classes); every grant list is recorded and replayable; oracle: porcupine linearizability check of the recorded call/return history plus one final-read per slot against a sequential slot-store model (partitioned by slot), independent reader on the final file (torn/unexpected/duplicate entries), deadlock detection; free mode (every run, built with -race): the same workloads run unscheduled with seeded random delays at the same points, race reports are counted; non-trivial = schedule with >=1 context switch between another task's file read and its file write (window hit) ; distinct by hash(workload, grant list)"
+	c.P.Rule = "case = (workload, schedule): 2-5 task goroutines, each one test execution (some re-executed) with 1-3 Match* calls of kind create/match/mismatch/update (MatchSnapshot/JSON/YAML) on one shared pre-populated file (half of the JSON documents handed over as Go values, values of a slot mostly of equal length so that rewrites keep the file size), some with snaps.Skip and standalone calls, one Config shared by all tasks (in half of the workloads the odd-numbered tasks reach the directory through a symbolic link and share a second Config); token mode: the real code built from an AST-instrumented overlay of the current sources yields at every file-system/lock operation and a controller grants one task at a time under a seeded strategy (PCT-style priorities with <=3 change points, uniform random, the two-cut family Y^j X^k Y* X* over task pairs, and site-cuts `Y until parked at its n-th <operation>, X until parked at its m-th <operation>, Y*, X*` over 13 operation classes); every grant list is recorded and replayable; oracle: porcupine linearizability check of the recorded call/return history plus one final-read per slot against a sequential slot-store model (partitioned by slot), independent reader on the final file (torn/unexpected/duplicate entries), deadlock detection; free mode (every run, built with -race): the same workloads run unscheduled with seeded random delays at the same points, race reports are counted; non-trivial = schedule with >=1 context switch between another task's file read and its file write (window hit) ; distinct by hash(workload, grant list)"
 	c.P.Assumptions = []string{"the instrumenter only adds yield points (syntactic); sites reached are reported", "in token mode the hand-off channels order every step, so data races are looked for only in free mode"}
 	if os.Getenv("VERIF_RACE_BUILD") == "1" {
 		freeMode(c)
@@ -332,11 +339,44 @@ func checkC06(c *vkit.Ctx) {
 // cutSites are the operation classes the targeted schedules cut at.
 var cutSites = []string{"os.ReadFile", "RLock", "_m.Lock", "os.OpenFile", "f.Stat", "Scan-loop", "f.Truncate", "f.Seek", "f.Write", "os.MkdirAll", "fmt.Fprintf", "s.Lock", "e.Lock"}
 
+var (
+	linkMu   sync.Mutex
+	linkCfgs = map[string]*snaps.Config{} // root -> shared Config that goes through root-link
+)
+
+// dirFor: the directory spelling task client uses.
+func dirFor(root string, client int) (string, *snaps.Config) {
+	linkMu.Lock()
+	lc := linkCfgs[root]
+	linkMu.Unlock()
+	if lc != nil && client%2 == 1 {
+		return root + "-link", lc
+	}
+	return root, nil
+}
+
+func dropLink(root string) {
+	linkMu.Lock()
+	delete(linkCfgs, root)
+	linkMu.Unlock()
+	os.Remove(root + "-link")
+}
+
 func setupFile(w *workload) (root, path string, cfg *snaps.Config) {
 	root = vkit.MkScratch("c06")
 	path = filepath.Join(root, "shared.snap")
 	os.WriteFile(path, []byte(vkit.RenderSnapFile(w.Pre)), 0o644)
 	cfg = snaps.WithConfig(snaps.Dir(root), snaps.Filename("shared"), snaps.JSON(snaps.JSONConfig{Indent: " ", SortKeys: true}))
+	if w.Link {
+		os.Remove(root + "-link")
+		if err := os.Symlink(root, root+"-link"); err != nil {
+			w.Link = false
+		} else {
+			linkMu.Lock()
+			linkCfgs[root] = snaps.WithConfig(snaps.Dir(root+"-link"), snaps.Filename("shared"), snaps.JSON(snaps.JSONConfig{Indent: " ", SortKeys: true}))
+			linkMu.Unlock()
+		}
+	}
 	return
 }
 
@@ -347,6 +387,7 @@ func tokenCase(c *vkit.Ctx, i int) {
 	sr := c.Rand("sched", i)
 	root, path, cfg := setupFile(w)
 	defer os.RemoveAll(root)
+	defer dropLink(root)
 	snaps.VerifResetProcessState()
 	snaps.VerifSetMode(false, "")
 	snaps.VerifSetNoColor(r.IntN(2) == 0)
@@ -534,6 +575,7 @@ func freeMode(c *vkit.Ctx) {
 			c.Violate(kind, "", fmt.Sprintf("free-running: %s; outcomes %v", detail, outcomes), in)
 		}
 		os.RemoveAll(root)
+		dropLink(root)
 		wb, _ := json.Marshal(w)
 		c.Case(vkit.Hash("free", string(wb), i), true)
 		if i%31 == 0 {
